@@ -5,8 +5,8 @@
 //!         emode_tag n_em (tag flags wi wm)*n_em
 //!   ops : 0 t | 1 a b amt up_to | 2 a b amt all | 3 a b amt | 4 a b amt all | 7 a b | 10 b | 16 b
 //!         | 17 liqor liqee ab lb amt | 18 a b | 19 b price
-//!         | 20 a (fixture: the group's risk admin becomes the authority of account a; 255 = the admin again)
-//!         | 21 b flags (fixture: bank flags word := flags)
+//!         | 30 a (fixture: the group's risk admin becomes the authority of account a; 255 = the admin again)
+//!         | 31 b flags (fixture: bank flags word := flags)
 //! out : per op `<res> # <bank dumps ';'-separated> # <account dumps ';'-separated>` joined by " | "
 use crate::sim::*;
 use crate::suites::bankops::{bank_pk, dump_bank, dump_la, parse_bank};
@@ -309,13 +309,13 @@ fn run_inner(line: &str, with_ref: bool) -> String {
                 h.w.update::<Bank>(&h.banks[b], |bk| bk.config.fixed_price = p.into());
                 Ok(())
             }
-            20 => {
+            30 => {
                 let a = t.usize();
                 let key = if a < h.auths.len() { h.auths[a] } else { h.admin };
                 h.w.update::<MarginfiGroup>(&group, |g| g.risk_admin = key);
                 Ok(())
             }
-            21 => {
+            31 => {
                 let b = t.usize();
                 let fl = t.u64();
                 h.w.update::<Bank>(&h.banks[b], |bk| bk.flags = fl);
